@@ -173,6 +173,11 @@ func (pl *LowNodeLoad) processOneNodePool(ctx context.Context, nodePool *desched
 	logUtilizationCriteria(nodePool.Name, "Criteria for nodes under low thresholds and above high thresholds", lowThresholds, highThresholds,
 		prodLowThresholds, prodHighThresholds, len(lowNodes), len(sourceNodes), len(prodLowNodes), len(prodHighNodes), len(bothLowNodes), len(nodes))
 
+	// A measured node that is not above its high thresholds in this round has no run of consecutive abnormalities
+	// any more: forget its detector, so that ConsecutiveAbnormalities counts consecutive rounds only.
+	forgetNodesNotAbnormal(nodeUsages, sourceNodes, pl.nodeAnomalyDetectors)
+	forgetNodesNotAbnormal(nodeUsages, prodHighNodes, pl.prodAnomalyDetectors)
+
 	if len(sourceNodes) == 0 && len(prodHighNodes) == 0 {
 		klog.V(4).InfoS("All nodes are under target utilization, nothing to do here", "nodePool", nodePool.Name)
 		return nil
@@ -270,6 +275,23 @@ func resetNodesAsNormal(lowNodes []NodeInfo, nodeAnomalyDetectors *gocache.Cache
 		if obj, ok := nodeAnomalyDetectors.Get(v.node.Name); ok {
 			anomalyDetector := obj.(anomaly.Detector)
 			anomalyDetector.Reset()
+		}
+	}
+}
+
+// forgetNodesNotAbnormal drops the anomaly detectors of the nodes that have a usable NodeMetric in this round and are
+// not classified as abnormal (above the high thresholds). Neither resetNodesAsNormal (BasicDetector.Reset keeps the
+// counters of a detector that is in the ok state, and it only runs once some node is already anomalous) nor
+// tryMarkNodesAsNormal (only nodes that were just balanced) ends the run of such a node, so without this a node that was
+// overloaded, went back to normal and is overloaded again would be balanced as if it had been overloaded all along.
+func forgetNodesNotAbnormal(nodeUsages map[string]*NodeUsage, abnormalNodes []NodeInfo, nodeAnomalyDetectors *gocache.Cache) {
+	abnormal := sets.NewString()
+	for _, v := range abnormalNodes {
+		abnormal.Insert(v.node.Name)
+	}
+	for nodeName := range nodeUsages {
+		if !abnormal.Has(nodeName) {
+			nodeAnomalyDetectors.Delete(nodeName)
 		}
 	}
 }
